@@ -33,19 +33,13 @@ theorem readSufD_wSparseD (cd : Codec) (n : Nat) :
     simp [readSufD, wSparseD, evSparseD, readUIntLt, h.1, ih]
 
 theorem readSufI_wSparseI (o : Opts) (n : Nat) :
-    ∀ (l : List (Nat × Int)) (rest : List Tok), sparseOk n l = true → intsOk o l = true →
+    ∀ (l : List (Nat × Int)) (rest : List Tok), sparseOk n l = true →
       readSufI n l.length (wSparseI o l ++ rest) = .ok (evSparseI l, rest)
-  | [], rest, _, _ => by simp [readSufI, wSparseI, evSparseI]
-  | (i, v) :: l, rest, h, hi => by
+  | [], rest, _ => by simp [readSufI, wSparseI, evSparseI]
+  | (i, v) :: l, rest, h => by
     simp [sparseOk] at h
-    simp [intsOk] at hi
-    have ih := readSufI_wSparseI o n l rest h.2 hi.2
-    have hv : wIntTok o v = .int v := by
-      unfold wIntTok
-      rcases hi.1 with hb | hv
-      · simp [hb]
-      · simp [hv]
-    simp [readSufI, wSparseI, evSparseI, readUIntLt, h.1, ih, hv]
+    have ih := readSufI_wSparseI o n l rest h.2
+    simp [readSufI, wSparseI, wIntTok, evSparseI, readUIntLt, h.1, ih]
 
 /-! ## one segment = one step of the loop -/
 
@@ -106,7 +100,6 @@ theorem readSegs_mono (cd : Codec) (h : Hdr) : ∀ (f : Nat) (nb : Bool) (ts : L
     | .vbt _ :: _ => simp [readSegs] at hr
     | .cmt _ :: _ => simp [readSegs] at hr
     | .eol :: _ => simp [readSegs] at hr
-    | .bad :: _ => simp [readSegs] at hr
 
 theorem readSegs_mono' (cd : Codec) (h : Hdr) (k : Nat) : ∀ (f : Nat) (nb : Bool) (ts : List Tok) (r : List Ev),
     readSegs cd h f nb ts = .ok r → readSegs cd h (f + k) nb ts = .ok r := by
